@@ -261,6 +261,9 @@ for k, v in opts.items():
         continue
     if k in ("additional_imports", "custom_formatters"):   # a comma separated string on the CLI / in pyproject
         v = v.split(",")
+    if k not in Config.model_fields:      # not (any longer) a Config field: hand the raw value to generate()
+        kw[renames.get(k, k)] = v
+        continue
     ann = Config.model_fields[k].annotation
     kw[renames.get(k, k)] = TypeAdapter(ann, config={"arbitrary_types_allowed": True}).validate_python(v)
 try:
